@@ -310,7 +310,6 @@ func runC10(c *Ctx) {
 	_ = strings.Join
 }
 
-
 // DebugSeq runs constructor → method (debug aid).
 func (c *Ctx) DebugSeq(pkg, ctor, typ, method string, peel bool) *E1Result {
 	return c.runSeq(seqEntry{c.P.Func(pkg, ctor), c.P.Method(pkg, typ, method), peel})
